@@ -764,35 +764,48 @@ class Mailbox:
                 # between different IMAP Commands that are allowed to run at
                 # the same time if they do not operate on the same messages.
                 #
-                # try:
-                imap_cmd.msg_set_as_set = self.msg_set_to_msg_seq_set(
-                    imap_cmd.msg_set, imap_cmd.uid_command
-                )
-
-                # Block until the new IMAP command would not conflict with any
-                # of the currently executing IMAP commands.
+                # NOTE: Whatever happens while we prepare this command (the
+                #       message set is out of range, the resync fails, this
+                #       task is cancelled) the task waiting in
+                #       `ready_and_okay()` must be woken up. A failure is
+                #       handed to it so it can report it to its client.
                 #
-                await self.command_can_proceed(imap_cmd)
+                try:
+                    imap_cmd.msg_set_as_set = self.msg_set_to_msg_seq_set(
+                        imap_cmd.msg_set, imap_cmd.uid_command
+                    )
 
-                # If there are no tasks, do a resync. Also potentially pack the
-                # folder (doing it while there are no commands running to
-                # prevent any sort of sync between client and server errors.)
-                #
-                if not self.executing_tasks:
-                    async with self.mailbox.lock_folder():
-                        changed = await self.check_new_msgs_and_flags()
-
-                    # Need to update this command's msg_set_as_set before we
-                    # add it to the list of executing commands (the list is
-                    # empty so we only need to update this one command)
+                    # Block until the new IMAP command would not conflict with
+                    # any of the currently executing IMAP commands.
                     #
-                    if changed:
-                        imap_cmd.msg_set_as_set = self.msg_set_to_msg_seq_set(
-                            imap_cmd.msg_set, imap_cmd.uid_command
-                        )
+                    await self.command_can_proceed(imap_cmd)
 
-                self.executing_tasks.append(imap_cmd)
-                imap_cmd.ready.set()
+                    # If there are no tasks, do a resync. Also potentially pack
+                    # the folder (doing it while there are no commands running
+                    # to prevent any sort of sync between client and server
+                    # errors.)
+                    #
+                    if not self.executing_tasks:
+                        async with self.mailbox.lock_folder():
+                            changed = await self.check_new_msgs_and_flags()
+
+                        # Need to update this command's msg_set_as_set before
+                        # we add it to the list of executing commands (the list
+                        # is empty so we only need to update this one command)
+                        #
+                        if changed:
+                            imap_cmd.msg_set_as_set = (
+                                self.msg_set_to_msg_seq_set(
+                                    imap_cmd.msg_set, imap_cmd.uid_command
+                                )
+                            )
+
+                    self.executing_tasks.append(imap_cmd)
+                except Exception as exc:
+                    imap_cmd.mgmt_exception = exc
+                    raise
+                finally:
+                    imap_cmd.ready.set()
 
             except NoSuchMailboxError:
                 self.logger.info(
